@@ -62,6 +62,8 @@ int main(void) {
 					else rc = KSI_Signature_parseWithPolicy(ctx, raw, len, policy_by_name(tok[1]), &uc, &s2);
 					KSI_Signature_free(s2);
 					if (rc == KSI_OK) printf(" rc=0 res=0 err=-"); else if (rc == KSI_VERIFICATION_FAILURE) printf(" rc=0 res=9 err=-"); else printf(" rc=%d res=- err=-", rc);
+					/* the caller's context is an input: what it says about signature, document hash and level is what the caller put there */
+					printf(" uctx=%s", (uc.signature == NULL && uc.documentHash == doc && uc.docAggrLevel == vc.docAggrLevel) ? "same" : "changed");
 				  }
 				}
 				if (KSI_Signature_serialize(sig, &ser, &serlen) == KSI_OK) printf(" ser=%s", (serlen == len && memcmp(ser, raw, len) == 0) ? "same" : "diff"); else printf(" ser=-");
